@@ -4,6 +4,7 @@
 From V.lib Require Import Base.
 From V.model Require Import Requests Sync SyncSpec MemPool TxFlow TxFlowSpec.
 From V.proofs Require Import Untrusted_Proofs.
+From V.proofs Require TxFlow_Proofs.
 
 (* Non-interference: for every trusted history T interleaved arbitrarily with any untrusted messages
    (block messages - also for outstanding requests, with matching or forged bodies -, headers of any
@@ -46,6 +47,30 @@ Theorem C12_no_vouching :
     flow_valid delay ops = true -> never_objects delay [122; 131] ops.
 Proof. exact no_vouching. Qed.
 Print Assumptions C12_no_vouching.
+
+(* ... also across reorganisations (model/TxFlow.v OReorg: the trusted headers handler reverts the chain): a
+   transaction whose confirming block was orphaned and that an untrusted peer sends again is delivered as new
+   once more but NOT safe (126: safe on arrival for a transaction that was not submitted locally - in particular
+   not because of the safe state stored when the orphaned block confirmed it), and the delay check reports it
+   safe only after the trusted peer announced or sent it (122) *)
+Theorem C12_no_vouching_reorg :
+  forall (delay : Z) (ops : list TxFlow.op),
+    flow_valid delay ops = true -> never_objects delay [122; 126; 131] ops.
+Proof. exact (TxFlow_Proofs.txflow_never_objects_any [122; 126; 131]). Qed.
+Print Assumptions C12_no_vouching_reorg.
+
+(* Non-vacuity: tx 1 confirmed by the trusted peer's block 1, block 1 orphaned by block 2 (which holds a double
+   spend of tx 1), an untrusted peer sends tx 1: delivered as new, not safe; never reported safe afterwards *)
+Example C12_reorg_example_ops : list TxFlow.op :=
+  [OSetInSync true; OBlock 1 0 [(1, [1000], true)] true; OReorg 2 0 [(2, [1000; 1001], true)] true;
+   OSetInSync true; OTx 1 [1000] true SUntrusted; OAdvance 75000; ODelayCheck; OUnconf].
+Example C12_reorg_example :
+  flow_valid 60000 C12_reorg_example_ops = true /\
+  txflow_monitor 60000 C12_reorg_example_ops (TxFlow.run 60000 C12_reorg_example_ops) = None /\
+  nth 4 (TxFlow.run 60000 C12_reorg_example_ops) [] = [0; 1; 1; 0; 0; 0; 0; 1; 1; 1000] /\
+  nth 6 (TxFlow.run 60000 C12_reorg_example_ops) [] = [0] /\
+  nth 7 (TxFlow.run 60000 C12_reorg_example_ops) [] = [0; 1; 0; 0; 0].
+Proof. vm_compute. repeat split; reflexivity. Qed.
 
 (* gating, as an executable statement over operations and observations: the monitor judges by itself
    (from the chain in the digest) whether a headers message verifies the connection and objects when an
